@@ -42,8 +42,17 @@ def cmat(rs, r, c):
 # --------------------------------------------------------------------------
 # plans
 # --------------------------------------------------------------------------
-def gen_P(rng, K):
+def gen_P(rng, K, extreme=False):
     r = rng.random()
+    if extreme and r < 0.8:
+        # the corner where a root search for the power constraint is hardest: tiny, huge or very unequal powers
+        if r < 0.35:
+            return rng.choice([1e-9, 1e-7, 1e-5, 1e-3])
+        if r < 0.55:
+            return [rng.choice([1e-9, 1e-7, 1e-5, 1e-3, 1.0]) for _ in range(K)]
+        P = [rng.choice([100.8, 230.0, 10.0, 1.0, 1e4]) for _ in range(K)]
+        P[rng.randrange(K)] = rng.choice([1e-4, 1e-3, 1e-6])
+        return P
     if r < 0.3:
         return None
     if r < 0.52:
@@ -59,6 +68,9 @@ def gen_P(rng, K):
 
 def gen_plan(rng, tier, idx, opts):
     kind = rng.choice(["closed", "altmin", "altmin", "minleak", "minleak", "maxsinr", "mmse"])
+    if opts.get("kind"):
+        kind = opts["kind"]
+    extreme = bool(opts.get("extreme_powers"))
     if kind == "closed":
         K = 3
         N = rng.choice([2, 4, 4, 6])
@@ -106,16 +118,16 @@ def gen_plan(rng, tier, idx, opts):
         if first or r < 0.2:
             if init == "fix":
                 ops.append({"op": "set_precoders", "how": "F", "seed": s(), "P": None})
-            ops.append({"op": "solve", "P": gen_P(rng, K), "monitor": rng.random() < 0.6})
+            ops.append({"op": "solve", "P": gen_P(rng, K, extreme), "monitor": rng.random() < 0.6})
             first = False
         elif r < 0.3:
-            ops.append({"op": "randomizeF", "P": gen_P(rng, K)})
+            ops.append({"op": "randomizeF", "P": gen_P(rng, K, extreme)})
         elif r < 0.45:
-            ops.append({"op": "set_precoders", "how": rng.choice(["F", "full_F", "both"]), "seed": s(), "P": rng.choice([None, None, "gen"]) and gen_P(rng, K)})
+            ops.append({"op": "set_precoders", "how": rng.choice(["F", "full_F", "both"]), "seed": s(), "P": rng.choice([None, None, "gen"]) and gen_P(rng, K, extreme)})
         elif r < 0.55:
             ops.append({"op": "set_receive_filters", "how": rng.choice(["W", "W_H"]), "seed": s()})
         elif r < 0.72:
-            ops.append({"op": "set_P", "P": gen_P(rng, K)})
+            ops.append({"op": "set_P", "P": gen_P(rng, K, extreme)})
         elif r < 0.75:
             ops.append({"op": "scribble_P", "factor": rng.choice([0.25, 0.5, 2.0])})
         elif r < 0.78:
@@ -131,11 +143,11 @@ def gen_plan(rng, tier, idx, opts):
             ops.append({"op": "rechannel", "seed": s(), "Nr": nr2, "Nt": nt2})     # the channel object gets other dimensions
             if init == "fix":
                 ops.append({"op": "set_precoders", "how": "F", "seed": s(), "P": None})
-            ops.append({"op": "solve", "P": gen_P(rng, K), "monitor": rng.random() < 0.6})
+            ops.append({"op": "solve", "P": gen_P(rng, K, extreme), "monitor": rng.random() < 0.6})
         elif r < 0.84 and kind != "closed" and init not in ("fix",):
             # the stream-variation drivers of the library run their own history of solve / clear / set_precoders /
             # set_receive_filters on the SAME solver object
-            ops.append({"op": "stream_search", "how": rng.choice(["greedy", "greedy", "brute"]), "P": gen_P(rng, K)})
+            ops.append({"op": "stream_search", "how": rng.choice(["greedy", "greedy", "brute"]), "P": gen_P(rng, K, extreme)})
         elif r < 0.855 and kind != "closed":
             ops.append({"op": "set_max_iter", "v": rng.choice([1, 1, 2, 3, 6])})      # iteration budget changed between two solves
         elif r < 0.87:
